@@ -166,6 +166,12 @@ impl<Body> AmendedRequest<Body> {
     }
 
     pub fn new_uri_from_location(&self, location: &str) -> Result<Uri, Error> {
+        // The url crate repairs what RFC 3986 does not allow, or reads differently, into a url on
+        // another host: "/\\y.test", "http:y.test", "http:///y.test". Such a location is not followed.
+        if !is_plain_reference(location) {
+            return Err(Error::BadLocationHeader(location.to_string()));
+        }
+
         let url = match Url::parse(&self.uri().to_string()) {
             Ok(base) => base.join(location),
             // The request uri is not absolute (origin-form with a host header):
@@ -270,4 +276,33 @@ pub(crate) struct RequestInfo {
     pub body_mode: BodyWriter,
     pub req_host_header: bool,
     pub req_body_header: bool,
+}
+
+/// Tells if the url crate reads the authority of this reference where RFC 3986 does: no backslash
+/// or control character anywhere, a scheme is followed by `//`, and `//` by a non-empty authority.
+fn is_plain_reference(location: &str) -> bool {
+    if location.bytes().any(|b| b == b'\\' || b.is_ascii_control()) {
+        return false;
+    }
+
+    let is_scheme = |s: &str| {
+        s.starts_with(|c: char| c.is_ascii_alphabetic())
+            && s.bytes()
+                .all(|b| b.is_ascii_alphanumeric() || b"+-.".contains(&b))
+    };
+
+    let rest = match location.split_once(':') {
+        Some((scheme, rest)) if is_scheme(scheme) => {
+            if !rest.starts_with("//") {
+                return false;
+            }
+            rest
+        }
+        _ => location,
+    };
+
+    match rest.strip_prefix("//") {
+        Some(authority) => !authority.is_empty() && !authority.starts_with('/'),
+        None => true,
+    }
 }
